@@ -594,6 +594,8 @@ Proof.
     eapply bal_perm; [apply perm_closed_Rfd| |apply Permutation_sym, Ho3].
     destruct (ph_subset h && ekind_is_enoent e); [|constructor; hnf; reflexivity].
     eapply bal_bind; [apply procfs_new_unmasked_bal|]. intros [h'|e'] o4 Ho4; [|constructor; exact Ho4].
+    destruct (RETRY_ONLY_UNMASKED && ph_subset h').
+    { hnf in Ho4. apply close_ret_bal with (o' := o1); [apply perm_closed_Rfd|exact Ho4|hnf; reflexivity]. }
     eapply bal_bind; [apply (IH h' base sub _ o4)|]. intros r' o5 Ho5. hnf in Ho4, Ho5.
     destruct r' as [fd'|e''].
     - apply close_ret_bal with (o' := fd' :: o1); [apply perm_closed_Rfd| |hnf; reflexivity].
